@@ -70,6 +70,12 @@ def judge_ckd_priv(ctx, case):
     except Exception as e:  # noqa
         return ctx.judge("ckd_priv", False, case, exp.fields(), e, cls=_cls(case), outcome="raised",
                          mech="C01.ckd_priv.raised")
+    if case.get("orphan") and not case.get("reuse"):
+        # the caller keeps ONLY the derived node (the parent was a temporary): what the child prints must not depend on the
+        # parent object still being alive
+        import gc
+        del node
+        gc.collect()
     bad = bridge.compare_node(child, exp, case["testnet"], True)
     bad += bridge.compare_strings(child, exp, case["testnet"], True)
     if not bad and case.get("all_versions"):
@@ -132,8 +138,17 @@ def judge_derive_path(ctx, case):
     except Exception as e:  # noqa
         return ctx.judge("derive_path", False, case, exp.fields(), e, cls="path|len%d" % len(path),
                          outcome="raised", mech="C01.derive_path.raised")
+    if case.get("orphan") and not case.get("reuse"):
+        import gc
+        del node
+        gc.collect()
     bad = bridge.compare_node(got, exp, case["testnet"], True)
     bad += bridge.compare_strings(got, exp, case["testnet"], True)
+    if case.get("orphan") and not case.get("reuse"):
+        # (no walk up the parent links here: whether a node keeps its ancestors alive is the library's business, only what
+        # the node itself reports is judged)
+        return ctx.judge("derive_path", not bad, case, exp.fields(), bad, cls="path|len%d|orphan" % min(len(path), 13),
+                         mech="C01.derive_path." + (bad[0][0] if bad else ""))
     # walk up the parent links: every ancestor must be the reference ancestor
     n, depth_back = got, len(path)
     while depth_back > 0 and n is not None and not bad:
@@ -236,7 +251,8 @@ def run(ctx):
                         continue
                     case = {"k": k, "c": gen.rbytes(rnd, 32), "depth": d, "ktag": ktag, "ctag": "c:random",
                             "pindex": 0 if d == 0 else 7, "pfp": b"\x00" * 4 if d == 0 else b"\x01\x02\x03\x04",
-                            "testnet": bool(n & 1), "form": ("ctor", "str")[n % 2], "index": i}
+                            "testnet": bool(n & 1), "form": ("ctor", "str")[n % 2], "index": i, "orphan": n % 3 == 0,
+                            "via": ("ckd", "derive_path", "generate_children")[(n // 3) % 3]}
                     judge_ckd_priv(ctx, case)
         # 2. random cases
         recent = []
@@ -288,6 +304,7 @@ def run(ctx):
             case["path"] = [gen.index(rnd)[1] for _ in range(L)]
             case["index"] = case["path"][-1]
             case["pform"] = rnd.choice(gen.PATH_FORMS)
+            case["orphan"] = rnd.random() < 0.3
             judge_derive_path(ctx, case)
         if ctx.thorough and ctx.shard == 0:
             case = gen_parent(rnd)
